@@ -410,6 +410,48 @@ func runGwHistory(rng *rand.Rand, w *Writer, suite string, malformed bool) {
 	n := 10 + rng.Intn(20)
 	for i := 0; i < n; i++ {
 		e := euis[rng.Intn(len(euis))]
+		if rng.Intn(14) == 0 {
+			// a gateway that keeps its PULL_DATA socket and acknowledges transmissions (TX_ACK, with its EUI after the
+			// header as in protocol version 2) from another one: the next downlink still goes to the PULL_DATA port
+			a := rng.Intn(len(gw.socks))
+			b := (a + 1 + rng.Intn(len(gw.socks)-1)) % len(gw.socks)
+			pull := header(2, someToken(rng), 2, e)
+			w.Begin(suite + " datagram " + hx(pull))
+			gw.send(a, pull)
+			step(fmt.Sprintf("G,%d,%s,-", a, hx(pull)), false)
+			tok := someToken(rng)
+			ack := append([]byte{2, byte(tok >> 8), byte(tok), 5}, binary.BigEndian.AppendUint64(nil, e)...)
+			if rng.Intn(2) == 0 {
+				ack = append(ack, []byte(`{"txpk_ack":{"error":"NONE"}}`)...)
+			}
+			w.Begin(suite + " datagram " + hx(ack))
+			gw.send(b, ack)
+			step(fmt.Sprintf("G,%d,%s,-", b, hx(ack)), false)
+			clock := rng.Uint32()
+			ch := uint8(rng.Intn(8))
+			freq := []float32{868.1, 868.3, 868.5, 867.1, 867.3, 867.5, 867.7, 867.9}[ch]
+			datr := datrs[rng.Intn(len(datrs))]
+			raw := randBytes(rng, 12+rng.Intn(40))
+			p := server.GatewayPacket{RawMessage: raw,
+				Radio:      server.RadioContext{Channel: ch, Frequency: freq, DataRate: datr, RX1Delay: 1},
+				Gateway:    server.GatewayContext{GatewayEUI: eui64(e), GatewayHost: gw.hosts[a], GatewayClock: clock, ProtocolVersion: 2},
+				ReceivedAt: time.Now(), Deadline: 1}
+			gw.fwd.Input() <- p
+			step(fmt.Sprintf("DL,%x,%d,%d,%v,%s,%d,%s,%s", e, clock, 1, freq, datr, 2, hx(raw), gw.hosts[a]), false)
+			w.Count("gw.tx_ack-from-another-socket")
+			continue
+		}
+		if rng.Intn(16) == 0 {
+			// a PUSH_DATA that is nothing but its 12-byte header: acknowledged like any other, and nothing is forwarded -
+			// in particular nothing of whatever datagram came before
+			si := rng.Intn(len(gw.socks))
+			pkt := header(byte(1+rng.Intn(2)), someToken(rng), 0, e)
+			w.Begin(suite + " datagram " + hx(pkt))
+			gw.send(si, pkt)
+			step(fmt.Sprintf("G,%d,%s,norxpk,", si, hx(pkt)), false)
+			w.Count("gw.push_data.header-only")
+			continue
+		}
 		switch r := rng.Intn(12); {
 		case r < 2: // registry operation
 			ip := []string{"127.0.0.1", "127.0.0.2", "10.1.2.3", "::1", "2001:db8::1", "::1", "127.0.0.1"}[rng.Intn(7)]
